@@ -185,6 +185,52 @@ pub fn run_c15(tier: Tier) -> ! {
         counts.merge(&c);
     }
     nstreams += total;
+    // long leftovers: what is pending at the end of input (or discarded before a frame) is longer
+    // than 2^8 / 2^16 bytes, idle noise as well as an unfinished transmission
+    {
+        let mut cases: Vec<(Vec<u8>, bool, String)> = vec![];
+        for l in [255usize, 256, 257, 4095, 4096, 4097, 65535, 65536, 65537, 70000, 131075] {
+            let mut s1 = canon(&[0x42]);
+            s1.extend(std::iter::repeat(0x55).take(l));
+            cases.push((s1, true, format!("frame + {} noise bytes", l)));
+            let mut s2 = canon(&[0x42]);
+            s2.extend_from_slice(&crate::refm::START);
+            s2.extend((0..l).map(|i| if i % 7 == 3 { 0x00 } else { 0x55 }));
+            cases.push((s2, false, format!("frame + unfinished transmission of {} bytes", l)));
+            let mut s3: Vec<u8> = std::iter::repeat(0x55).take(l).collect();
+            s3.extend_from_slice(&[0x1b, 0x1b]);
+            s3.extend(canon(&[0x42]));
+            s3.extend_from_slice(&[0x1b, 0x1b, 0x1b, 0x1b, 0x01]);
+            cases.push((s3, true, format!("{} noise bytes + 1b1b + frame + partial start", l)));
+        }
+        let parts = par_chunks(cases.len() as u64, 1, |a, _| {
+            let (s, with_default, name) = &cases[a as usize];
+            let mut out = vec![];
+            let mut c = Counts::default();
+            let case = J::obj().set("engine", "e3").set("check", "C15").set("stream", hex(s));
+            let mut traces = run_frontends(BufKind::Vec, s, FeSet::All);
+            if s.len() <= 69000 {
+                traces.extend(run_frontends(BufKind::Arr(70000), s, FeSet::Core));
+            }
+            let push = traces[0].normalized();
+            let defaults = if *with_default { run_default_readers(s) } else { vec![] };
+            for tr in traces[1..].iter().chain(defaults.iter()) {
+                c.inc("front-end runs compared with the push decoder");
+                c.inc("front-end runs on streams with a long leftover");
+                if tr.normalized() != push {
+                    out.push(Viol { class: "C15 front-end reports different results than the push decoder for the same bytes".into(), key: format!("long leftover: {}", name), what: format!("{} on {}: expected {} got {}", tr.name, name, evs_short(&push[..push.len().min(4)]), evs_short(&tr.events[..tr.events.len().min(4)])), case: case.clone(), size: s.len() });
+                }
+            }
+            (out, c)
+        });
+        for (o, c) in parts {
+            for v in o {
+                tally.add(v);
+            }
+            counts.merge(&c);
+        }
+        nstreams += cases.len() as u64;
+    }
     // multi-frame streams (1 ... 300 / 1000 frames with noise, rejected and aborted frames in between)
     let nmax = tier.pick(300usize, 1000);
     let items: Vec<(usize, usize)> = (1..=nmax).filter(|n| n % 5 == 1 || (250..=260).contains(n) || *n == nmax).flat_map(|n| (0..4).map(move |v| (n, v))).collect();
@@ -490,7 +536,7 @@ fn drive_real_eh(stream: &[u8], sched: &[(usize, Fault)], drv: Driver, ncalls: u
     let r = guarded(|| {
         let src = SchedEh { s: stream, i: 0, call: 0, sched };
         // the reader's type is spelled out: the builder must hand back the buffer that was asked for
-        let rd: SmlReader<_, sml_rs::util::ArrayBuf<64>> = SmlReader::with_static_buffer::<64>().from_eh_reader(src);
+        let rd = SmlReader::with_static_buffer::<64>().from_eh_reader(src);
         drive_loop!(rd, drv, ncalls, res, false, ids);
     });
     if let Err(p) = r {
@@ -504,7 +550,7 @@ fn drive_real(stream: &[u8], sched: &[(usize, Fault)], drv: Driver, max_calls: u
     let mut ids: Vec<String> = vec![];
     let r = guarded(|| {
         let src = SchedRead { s: stream, i: 0, call: 0, sched, eof: false, calls_seen: &calls, burst_left: 0 };
-        let rd: SmlReader<_, sml_rs::util::ArrayBuf<64>> = SmlReader::with_static_buffer::<64>().from_reader(src);
+        let rd = SmlReader::with_static_buffer::<64>().from_reader(src);
         drive_loop!(rd, drv, max_calls, res, true, ids);
     });
     if let Err(p) = r {
@@ -802,6 +848,27 @@ pub fn run_c11(tier: Tier) -> ! {
     for (t, c) in parts {
         tally.merge(t);
         counts.merge(&c);
+    }
+    // long pending counts: a fault or the end of input after 2^8 / 2^16 and more unreported bytes
+    {
+        let mut out = vec![];
+        for l in [255usize, 256, 257, 65535, 65536, 65537, 70000] {
+            let mut st: Vec<u8> = (0..l).map(|i| if i % 5 == 4 { 0x1b } else { 0x55 }).collect();
+            st.extend(canon(&[0x42]));
+            for drv in Driver::ALL {
+                for fl in [Fault::Other, Fault::ErrEof, Fault::Eof, Fault::TimedOut, Fault::WouldBlock] {
+                    for pos in [l - 1, l, l + 3] {
+                        c11_case(&st, &[(pos, fl)], drv, false, &mut out, &mut counts);
+                        c11_case(&st, &[(1, Fault::WouldBlock), (pos, fl)], drv, false, &mut out, &mut counts);
+                        counts.inc("schedules on streams with a long pending count");
+                    }
+                }
+                c11_case(&st[..l], &[], drv, false, &mut out, &mut counts);
+            }
+        }
+        for v in out {
+            tally.add(v);
+        }
     }
     let _ = for_each_schedule;
     ctx.log(&format!("{} streams, <= {} deviations: outcomes {:?}", streams.len(), kmax, counts.0));
